@@ -43,52 +43,66 @@ RAVals == {x \in RVals : x[1] > 0}
 ASSUME \A x \in RVals : IsRat(x) /\ x[1] >= 0
 ASSUME \A x \in RAVals : IsRat(x) /\ x[1] > 0
 
-VARIABLES pc, kind, base, r, rA, hasCache, cached, t, dists, pv, band
-vars == <<pc, kind, base, r, rA, hasCache, cached, t, dists, pv, band>>
+VARIABLES pc, kind, base, r, rA, hasCache, cached, t, dists, pv, band,
+          prev       \* the statistic pair of an earlier scan point served by the SAME calculator object (Rescan), or unused
+vars == <<pc, kind, base, r, rA, hasCache, cached, t, dists, pv, band, prev>>
+NoPrev == [used |-> FALSE, r |-> RZero, rA |-> ROne]
 
 NoDists == MkDists("normal", RZero)
 NoPV    == [sb |-> RZero, b |-> RZero, valid |-> FALSE]
 
 Init == /\ pc = "idle" /\ kind = "q" /\ base = "normal" /\ r = RZero /\ rA = ROne
-        /\ hasCache = FALSE /\ cached = RZero /\ t = RZero /\ dists = NoDists /\ pv = NoPV /\ band = <<>>
+        /\ hasCache = FALSE /\ cached = RZero /\ t = RZero /\ dists = NoDists /\ pv = NoPV /\ band = <<>> /\ prev = NoPrev
 
 ChooseCase(k, b, x, y) ==
   /\ pc = "idle"
   /\ kind' = k /\ base' = b /\ r' = x /\ rA' = y /\ pc' = "chosen"
-  /\ UNCHANGED <<hasCache, cached, t, dists, pv, band>>
+  /\ UNCHANGED <<hasCache, cached, t, dists, pv, band, prev>>
 
 \* distributions(): `if self.sqrtqmuA_v is None: raise RuntimeError`
 DistributionsEarly ==
   /\ pc = "chosen" /\ ~hasCache
   /\ pc' = "refused"
-  /\ UNCHANGED <<kind, base, r, rA, hasCache, cached, t, dists, pv, band>>
+  /\ UNCHANGED <<kind, base, r, rA, hasCache, cached, t, dists, pv, band, prev>>
 
 TestStatistic ==
   /\ pc = "chosen"
   /\ t' = TS(kind, r, rA)
   /\ cached' = rA /\ hasCache' = TRUE          \* self.sqrtqmuA_v = sqrt(qmuA_v)
   /\ pc' = "stat"
-  /\ UNCHANGED <<kind, base, r, rA, dists, pv, band>>
+  /\ UNCHANGED <<kind, base, r, rA, dists, pv, band, prev>>
 
 Distributions ==
   /\ pc = "stat" /\ hasCache
   /\ dists' = MkDists(base, cached)
   /\ pc' = "dist"
-  /\ UNCHANGED <<kind, base, r, rA, hasCache, cached, t, pv, band>>
+  /\ UNCHANGED <<kind, base, r, rA, hasCache, cached, t, pv, band, prev>>
 
 PValuesStep ==
   /\ pc = "dist"
   /\ pv' = PValues(dists, t)
   /\ pc' = "pvals"
-  /\ UNCHANGED <<kind, base, r, rA, hasCache, cached, t, dists, band>>
+  /\ UNCHANGED <<kind, base, r, rA, hasCache, cached, t, dists, band, prev>>
 
 ExpectedPValuesStep ==
   /\ pc = "pvals"
   /\ band' = ExpectedPValues(dists)
   /\ pc' = "band"
-  /\ UNCHANGED <<kind, base, r, rA, hasCache, cached, t, dists, pv>>
+  /\ UNCHANGED <<kind, base, r, rA, hasCache, cached, t, dists, pv, prev>>
+
+\* the same calculator object is asked for a second scan point (teststatistic(mu') after a complete first protocol): the
+\* statistics are new, the object and everything it remembers (cached sqrt(qA), distributions) stay - TestStatistic must
+\* overwrite the cache before anything reads it
+RescanR  == {x \in RVals : x \in {ROne}}
+RescanRA == {y \in RAVals : y \in {RN(1, 2), R(4)}}
+Rescan(x, y) ==
+  /\ pc = "band" /\ ~prev.used /\ <<x, y>> # <<r, rA>>
+  /\ prev' = [used |-> TRUE, r |-> r, rA |-> rA]
+  /\ r' = x /\ rA' = y /\ pc' = "chosen"
+  /\ UNCHANGED <<kind, base, hasCache, cached, t, dists, pv, band>>
 
 Next == \/ \E k \in Kinds, b \in Bases, x \in RVals, y \in RAVals : ChooseCase(k, b, x, y)
+        \/ \E x \in RescanR, y \in RescanRA : Rescan(x, y)
         \/ DistributionsEarly \/ TestStatistic \/ Distributions \/ PValuesStep \/ ExpectedPValuesStep
 Spec == Init /\ [][Next]_vars
 
@@ -135,7 +149,7 @@ NeverNaN ==
   /\ HasPV => pv.valid
   /\ pc = "band" => \A i \in 1..5 : band[i].valid
 
-CacheIsAsimov == /\ hasCache => cached = rA
+CacheIsAsimov == /\ (hasCache /\ pc \in {"stat", "dist", "pvals", "band"}) => cached = rA    \* between Rescan and TestStatistic the cache is stale by design
                  /\ pc \in {"dist", "pvals", "band"} => hasCache /\ dists.sb.shift = RNeg(rA) /\ dists.b.shift = RZero
 
 -----------------------------------------------------------------------------
@@ -147,9 +161,11 @@ Case ==
                                        b |-> PaperBandB(base, NSigmas[i], rA),
                                        capped |-> PaperE(base, NSigmas[i], rA) # R(NSigmas[i])]]],
    impl |-> [t |-> t, shift |-> dists.sb.shift, cutfin |-> dists.sb.cutoff.fin, cutoff |-> dists.sb.cutoff.v,
-             sb |-> pv.sb, b |-> pv.b, e |-> [i \in 1..5 |-> band[i].e]]]
+             sb |-> pv.sb, b |-> pv.b, e |-> [i \in 1..5 |-> band[i].e]],
+   prev |-> IF prev.used THEN << [r |-> prev.r, rA |-> prev.rA, q |-> RSq(prev.r), qA |-> RSq(prev.rA)] >> ELSE <<>>]
 
 KindNo == IF kind = "q" THEN 0 ELSE IF kind = "qtilde" THEN 1 ELSE 2
 Hash == r[1] * 7 + r[2] * 13 + rA[1] * 17 + rA[2] * 29 + KindNo * 5 + (IF base = "normal" THEN 0 ELSE 3)
+        + (IF prev.used THEN prev.r[1] * 3 + prev.rA[1] * 11 + prev.rA[2] ELSE 0)
 Emit == (EmitCases /\ pc = "band" /\ Hash % EmitMod = EmitRes) => PrintT(ToJson(Case))
 =============================================================================
